@@ -392,19 +392,20 @@ CLAIM_ADDENDA = {
     "C08": " The swap symmetry is also evaluated AT the fully polarised points per functional (open finding: the thermal LDAs); the closed-shell stand-in runs ten exchange / correlation pairs "
            "through get_xc on a system with non-local projectors.",
     "C10": " Bounded: the Ewald energy stored by an SCF object is the lattice sum of its CURRENT geometry after the atoms were replaced; left-handed lattice-vector orders; skewed lower-triangular cells.",
-    "C12": " The local potential is traced for three atoms of two species with symbolic structure factors (sum over atoms of form factor x structure factor); read_gth raising on a bundled file is a violation.",
+    "C12": " The local potential is traced for three atoms of two species with symbolic structure factors (sum over atoms of form factor x structure factor); read_gth raising on a bundled file is a violation. Writes-frame (AST): no function of eminus.potentials / eminus.gth stores in place into a parameter or a possible view of one. Bounded: a second and third evaluation on the same SCF object leave structure factors and Vloc unchanged.",
     "C13": " fill(f) with explicit scalar fillings 2/3, 3/2, 5/4, 3/4 (open findings for f < 1 with two spin channels); every path of get_Efermi with a positive width reaches the root finder. "
            "Bounded: smear() through the real root finder for widths 1e-3 .. 2 (sum, range, fillings = Fermi function at the returned level); float64 scan of the entropy term.",
-    "C14": " lm / cg are the unpreconditioned calls of pclm / pccg (wrapper contracts); with gradtol the converging path checks the gradient norms. Bounded: same minimum from two systems "
+    "C14": " lm / cg are the unpreconditioned calls of pclm / pccg (wrapper contracts); with gradtol the converging path checks the gradient norms SUMMED over the k-points (shape of the decisive path-condition atom; another shape is replayed natively on a four-k-point system). Bounded: same minimum from two systems "
            "(one with two spin channels and weighted k-points), k-point / spin-channel equivariance of every scheme (open finding: first iteration on a fresh object), "
            "converged energy of auto vs the other schemes from the pseudo-random start (open finding: premature convergence).",
     "C15": " Bounded: six mutation histories of a KPoints object (trs() then a new mesh, weights set by hand then a new mesh, mesh mode then Nk and path, mesh - path - mesh, shift after trs(), Nk changed after a path) equal a fresh object with the same final inputs.",
     "C16": " Bounded: Fermi orbitals for non-uniform fillings; the orbital wrappers of eminus/orbitals.py localise the CURRENT coefficients of the SCF object.",
-    "C17": " Bounded: CUBE files with FODs and trailing lines; Gamma-only restart (lists of one array).",
+    "C17": " Foreign POSCAR files with the mode-line spellings the format definition allows (first letter decides: 'Cart', 'K', 'D', 'Direct coordinates', 'Selective Dynamics'): every position assigned and right. Bounded: CUBE files with FODs and trailing lines; Gamma-only restart (lists of one array).",
     "C19": " Bounded histories: Atoms setters (a, ecut, s, pos) with custom k-points, recenter / set_k helpers, SCF histories (pot_params set / reset, geometry replaced between two runs, "
            "recenter of a converged run by a grid vector) equal fresh objects with the same final inputs.",
     "C20": " Bounded: seeded guesses for seeds 0, 1, 11, 2^40 + 3 depend on the seed and the basis size only (native twins); open-shell Fermi orbitals under NaN poison; an undecided "
-           "coverage VC of an allocation site that is not in the baseline is reported (exit 2).",
+           "coverage VC of an allocation site that is not in the baseline is reported (exit 2). Coverage VCs also cover if / else stores, enumerate over symbolic slices, empty_like under a producer contract with a case split over the spin treatment, and columns "
+           "written through a running index whose bound was counted by a loop nest with the same headers (counting lemma, syntactic premises checked every run). A set that is handed to zip / enumerate instead of a for statement is outside the set-order lemma (native forced-order replay decides).",
 }
 for _p, _add in CLAIM_ADDENDA.items():
     PROPERTIES[_p]["claim"] = PROPERTIES[_p]["claim"].rstrip() + _add
